@@ -310,6 +310,9 @@ func (w *Writer) Close() error {
 			// in buf.Bytes() returning the whole allocated bytes.
 			w.dataBlock.buf.Reset()
 			w.bpool.Put(w.dataBlock.buf.Bytes())
+			// Return the buffer only once, a buffer that is in the pool
+			// twice would be handed out to two users.
+			w.bpool = nil
 		}
 	}()
 
